@@ -42,6 +42,7 @@ class Opts:
         self.leaf_inputs = [0, 1, 1, 1, 2]
         self.p_type_override = 0.1
         self.p_param_res_clash = 0.12
+        self.p_placeholder_clash = 0.3
         self.size_thresholds = (0.3, 0.55, 0.65)   # unsized | fresh symbol | repeated symbol | (constant/compound when the incoming size is known)
         self.qubit_mode = False     # generate local_ancillae / positive sizes for the highwater property
         self.__dict__.update(kw)
@@ -208,11 +209,18 @@ def _fill_repetition(rng, node, scope, opts):
     elif kind == "geometric":
         seq = {"type": "geometric", "ratio": par(2, 3)}
     elif kind == "closed_form":
-        body = E.bin_("+", E.bin_("*", E.sym("T_n"), E.bin_("+", E.sym("T_n"), par())), E.num(rng.randint(0, 2)))
-        prod = E.bin_("**", E.num(2), E.sym("T_n")) if rng.random() < 0.5 else None
-        seq = {"type": "closed_form", "sum": body, "prod": prod, "num_terms_symbol": "T_n"}
+        # the placeholder is a bound name of the formula: now and then it is spelled like a name of an outer scope
+        tn = "T_n"
+        if rng.random() < opts.p_placeholder_clash:
+            tn = rng.choice([x for x in POOL if x not in scope] or ["T_n"])
+        body = E.bin_("+", E.bin_("*", E.sym(tn), E.bin_("+", E.sym(tn), par())), E.num(rng.randint(0, 2)))
+        prod = E.bin_("**", E.num(2), E.sym(tn)) if rng.random() < 0.5 else None
+        seq = {"type": "closed_form", "sum": body, "prod": prod, "num_terms_symbol": tn}
     else:
-        term = E.bin_("+", E.bin_("*", E.sym("it"), par()), E.num(rng.randint(0, 2)))
+        if rng.random() < 0.3:
+            term = E.bin_("+", par(), E.num(rng.randint(0, 2)))    # a term that does not mention the iterator at all
+        else:
+            term = E.bin_("+", E.bin_("*", E.sym("it"), par()), E.num(rng.randint(0, 2)))
         seq = {"type": "custom", "term_expression": term, "iterator_symbol": "it"}
     node["repetition"] = {"count": count, "sequence": seq}
 
